@@ -917,17 +917,30 @@ class SigmaCIDRExpression(NoPlainConversionMixin, SigmaType):
             ):  # Generate all the subnetworks where the prefix ends at the next 4 bit boundary
                 first_addr = str(subnet_v6.network_address)
                 last_addr = str(subnet_v6.broadcast_address)
-                wildcard_required = False  # There's the possibility that no wildcard is required at all if the prefix is /128 (e.g. localhost)
-                for i in range(
-                    len(first_addr)
+                wildcard_required = (
+                    first_addr != last_addr
+                )  # There's the possibility that no wildcard is required at all if the prefix is /128 (e.g. localhost)
+                i = 0
+                while (
+                    i < min(len(first_addr), len(last_addr)) and first_addr[i] == last_addr[i]
                 ):  # Determine the first char that differs between the first and last network address of the network. This is the location where the wildcard has to be placed.
-                    if first_addr[i] != last_addr[i]:
-                        wildcard_required = True
-                        break  # location found
+                    i += 1
                 if wildcard_required:
                     patterns.append(
                         str(subnet_v6)[:i] + wildcard
                     )  # Generate pattern by cutting of at first difference
+                    if i == len(first_addr) and first_addr.endswith("::"):
+                        # The first address is a prefix of the last one: the compressed zero run
+                        # of the network part reaches into the host part. Addresses with a longer
+                        # zero run inside their host part are written with that run compressed and
+                        # the zero groups of the network part spelled out, which needs its own pattern.
+                        host_bits = 128 - subnet_v6.prefixlen
+                        explicit_groups = len([g for g in first_addr.split(":") if g != ""])
+                        zero_groups = subnet_v6.prefixlen // 16 - explicit_groups
+                        longest_host_run = host_bits // 16 - (0 if host_bits % 16 else 1)
+                        if longest_host_run > zero_groups:
+                            head = first_addr[:-2] + ":" if explicit_groups > 0 else ""
+                            patterns.append(head + "0:" * zero_groups + wildcard)
                 else:  # The /128 case - single address, use network_address not network (avoid "::1/128" literal)
                     patterns.append(str(subnet_v6.network_address))
         return patterns
